@@ -1106,7 +1106,7 @@ impl Interp {
                 let fname = name.unwrap_or("<unnamed function>".to_string());
                 self.fn_stack.push(fname);
                 self.depth += 3;
-                let r = self.call_body(&params, collect, &body, fenv, argv, fv.src);
+                let r = self.call_body(&params, collect, &body, fenv, argv, fv.src, call_pos);
                 self.depth -= 3;
                 self.fn_stack.pop();
                 match r {
@@ -1129,6 +1129,7 @@ impl Interp {
         fenv: usize,
         argv: Vec<SVal>,
         this: Option<Box<Val>>,
+        call_pos: Pos,
     ) -> R<SVal> {
         let frame = self.push_frame(fenv);
         let np = params.len();
@@ -1142,8 +1143,9 @@ impl Interp {
             self.bind(&params[i], v, frame, Mode::Decl, None, &mut vec![])?;
         }
         if let Some(t) = this {
-            if let Err(prev) = self.declare(frame, "this", (0, 0), SVal::plain(*t)) {
-                return self.fail(EKind::Redeclared { name: "this".to_string(), prev }, (0, 0));
+            // the implicit `this` is declared at the position of the call
+            if let Err(prev) = self.declare(frame, "this", call_pos, SVal::plain(*t)) {
+                return self.fail(EKind::Redeclared { name: "this".to_string(), prev }, call_pos);
             }
         }
         match self.exec_stmts(body, frame)? {
